@@ -52,6 +52,11 @@ CHECKS = {
          "Held on every explored write: ~110 hostile strings x 8 positions x 2 boundaries, 25 property values, 500 / 20000 random position pairs; bystander graph and population unchanged, index invariants intact. Acceptance itself is not judged.",
          "Trusted: the snapshot function (gq/snapshot.go). Invalid UTF-8 cannot cross gRPC; at the gdbi boundary non-UTF-8 property data is a known finding and excluded from generation.",
          "5/C16"),
+ "C18": ("exploration",
+         "differential runtime monitor with twin graphs on one live server: every generated stream goes through gRPC BulkAdd into one graph and, element by element, through AddVertex/AddEdge into its twin; complete states and reported counts are compared; util.StreamBatch is driven directly against a recording adder",
+         "Held on every explored stream: lengths around 50/100/1000 in three valid/invalid mixes, all ordered pairs of an 18-element pool, every graph-switching pattern of length <= 4 over existing/missing/schema graphs, 200 / 5000 random streams; InsertCount and ErrorCount equal the numbers of valid and invalid elements. Same id twice in one write batch with a different shape is a known finding and excluded.",
+         "Engine vs engine through the public gRPC API; validity of an element is decided by the documented rules (harness/model/graph.go ValidElem).",
+         "5/C18"),
 }
 
 NOT_YET = "check not built yet in this session (design in DESIGN.md section 5); claimed once the monitor exists and is silent on the unchanged tree"
